@@ -533,7 +533,14 @@ func runOnce(c Case, T time.Duration) (v kit.Verdict) {
 		case <-time.After(4 * T):
 			return fmt.Errorf("no response to the early-reply exchange within %v", 4*T)
 		}
-		return cl.Write(raw[hold:])
+		err := cl.Write(raw[hold:])
+		if err != nil && c.Exchanges[i].closeMarked() {
+			// The response is already here and the exchange asked to close: the
+			// proxy may close without waiting for the rest of the body, and
+			// writing into that closed connection fails legitimately.
+			return nil
+		}
+		return err
 	}
 	writeRange := func(lo, hi int) {
 		for i := lo; i < hi; i++ {
